@@ -356,8 +356,11 @@ def run_check(prop, tier, seed):
     recheck = None
     if tier == "thorough" and ok:
         # independent re-check of the compiled proof modules of this property with leanchecker
-        mods = sorted({".".join(n.split(".")[1:-1]) for n in names if n.startswith("Entrait.C")})
-        mods = ["EntraitProofs." + m for m in mods if m]
+        mods = {".".join(n.split(".")[1:-1]) for n in names if n.startswith("Entrait.C")}
+        # every proof module of the property, also those whose theorems live in a namespace of another file
+        # (C01View states its theorems in `Entrait.C01`)
+        mods |= {f[:-5] for f in os.listdir(os.path.join(LEAN, "EntraitProofs")) if re.match(r"^%s[A-Za-z]*\.lean$" % prop, f)}
+        mods = ["EntraitProofs." + m for m in sorted(mods) if m and os.path.exists(os.path.join(LEAN, "EntraitProofs", m + ".lean"))]
         rc_lc, out_lc = sh(["lake", "env", "leanchecker"] + mods, cwd=LEAN) if mods else (0, "")
         recheck = {"modules": mods, "exit": rc_lc}
         if rc_lc != 0:
@@ -473,7 +476,16 @@ def run_check(prop, tier, seed):
         if prop in ("C17", "C20") and d.get("real") == "ok" and d.get("tok") == "1" and c is not None:
             # non-trivial: the real macro expanded the case and the expansion equals the model's token for token
             nontrivial.add((c[1], c[2], c[3]))
-        if d.get("HYG") and prop in HYG_PROPS.get(mode, ()):
+        hyg = d.get("HYG", "")
+        # notes prefixed `unmock:` are about identifiers inside the unimock derivation's `unmock_with` list (C11)
+        hyg_body = "; ".join(x for x in hyg.split("; ") if x and not x.startswith("unmock:"))
+        hyg_unmock = "; ".join(x for x in hyg.split("; ") if x.startswith("unmock:"))
+        if hyg_unmock and prop == "C11":
+            stats["span_mismatch"] = stats.get("span_mismatch", 0) + 1
+            body_only.append((cid, "an identifier of an `unmock_with` argument list does not carry the span of the parameter it is "
+                                   "spelled like (%s)" % hyg_unmock[:160]))
+        if hyg_body and prop in HYG_PROPS.get(mode, ()):
+            d["HYG"] = hyg_body
             # token-invisible: what the other span does to name resolution is rustc's to say - if a compile-and-run
             # probe of the property fails, that probe is the failing input; otherwise the correspondence is broken
             # without one (same rule as for unrecognised body spellings)
